@@ -114,12 +114,14 @@ def theorems_in(module):
 
 
 def audit(prop, module, extra_allowed=()):
-    """`#print axioms` for every theorem of the Thm module. Returns dict."""
-    names = theorems_in(module)
+    """`#print axioms` for every theorem of the Thm module(s). Returns dict."""
+    modules = [module] if isinstance(module, str) else list(module)
+    names = [n for m in modules for n in theorems_in(m)]
     os.makedirs(os.path.join(BUILD, "audit"), exist_ok=True)
     f = os.path.join(BUILD, "audit", f"Audit_{prop}.lean")
     with open(f, "w") as fh:
-        fh.write(f"import {module}\n")
+        for m in modules:
+            fh.write(f"import {m}\n")
         for n in names:
             fh.write(f"#print axioms {n}\n")
     rc, out = sh(["lake", "env", "lean", f], cwd=LEAN, timeout=1200)
@@ -342,19 +344,21 @@ class Ctx:
 def proof_leg(ctx, module, extra_allowed=(), extra_targets=()):
     """Build the theorem module and the driver, scan for forbidden constructs, audit axioms.
     Returns (coverage-fragment, ok). On failure records nothing itself: the caller searches."""
-    ok, out, wall = lake_build([module, "pestmodel"] + list(extra_targets))
-    frag = {"lean_build_s": round(wall, 1), "checker_cmd": f"cd lean && lake build {module} pestmodel && lake env lean build/audit/Audit_{ctx.prop}.lean  (#print axioms)"}
+    modules = [module] if isinstance(module, str) else list(module)
+    ok, out, wall = lake_build(modules + ["pestmodel"] + list(extra_targets))
+    frag = {"lean_build_s": round(wall, 1), "checker_cmd": f"cd lean && lake build {' '.join(modules)} pestmodel && lake env lean build/audit/Audit_{ctx.prop}.lean  (#print axioms)"}
     problems = []
     if not ok:
         problems.append("lake build failed: " + out[-3000:])
         names = []
         try:
-            names = theorems_in(module)
+            names = [n for m in modules for n in theorems_in(m)]
         except Exception:
             pass
         frag.update({"obligations": max(1, len(names)), "discharged": 0, "theorems": names})
         return frag, problems
-    hits = forbidden_scan(module)
+    hits = [h for m in modules for h in forbidden_scan(m)]
+    hits = sorted(set(hits))
     if hits:
         problems.append("forbidden constructs: " + "; ".join(hits[:10]))
     a = audit(ctx.prop, module, extra_allowed)
